@@ -256,6 +256,7 @@ func runLockRulesP(c *Ctx, prop string, fnPred func(*ssa.Function) bool, ownerPr
 			}
 			la9 := newLockAnalysis(p)
 			nRead := 0
+			nRead10 := 0
 			for _, fn := range p.OwnFuncs {
 				if !IsProd(fn) || len(fn.Blocks) == 0 {
 					continue
@@ -309,6 +310,62 @@ func runLockRulesP(c *Ctx, prop string, fnPred func(*ssa.Function) bool, ownerPr
 								}
 							}
 						}
+						// R10: a value read from the guarded field under the lock, worked on after the
+						// lock was given up, is not written back to that field under a later
+						// acquisition — whatever other holders stored in between would be overwritten
+						{
+							stale := map[ssa.Value]bool{} // derived, and some step on the way ran without the lock
+							seen10 := map[ssa.Value]bool{}
+							var follow func(v ssa.Value, unlocked bool, d int)
+							follow = func(v ssa.Value, unlocked bool, d int) {
+								if d > 8 || (seen10[v] && (!unlocked || stale[v])) {
+									return
+								}
+								seen10[v] = true
+								if unlocked {
+									stale[v] = true
+								}
+								refs := v.Referrers()
+								if refs == nil {
+									return
+								}
+								for _, r := range *refs {
+									switch x := r.(type) {
+									case *ssa.Call:
+										// the value is handed to a function that gives a value back (filter, copy, sort…)
+										if x.Type() != nil {
+											if _, isTuple := x.Type().(*types.Tuple); !isTuple || x.Type().(*types.Tuple).Len() > 0 {
+												follow(x, unlocked || !heldAt(x), d+1)
+											}
+										}
+									case *ssa.Slice, *ssa.Phi, *ssa.Convert, *ssa.ChangeType, *ssa.BinOp, *ssa.Extract:
+										follow(x.(ssa.Value), unlocked || !heldAt(r), d+1)
+									case *ssa.Store:
+										if x.Val != v || !stale[v] {
+											continue
+										}
+										fa2, ok := x.Addr.(*ssa.FieldAddr)
+										if !ok || fa2.Field != fa.Field {
+											continue
+										}
+										if o2, _ := ownerOfFieldBase(fa2.X.Type()); o2 != owner {
+											continue
+										}
+										if stripFree(lf.tb.of(fa2.X, 0)).String() != base || !heldAt(x) {
+											continue
+										}
+										c.Require(prop+".R10 no-stale-write-back", FuncKey(fn)+": "+owner+"."+fieldNameOf(st.Field(fa.Field))+" read under the lock, recomputed without it, stored back under a later acquisition", p.InstrPos(x),
+											"a guarded field is rewritten from a value read under the same acquisition of "+owner+"."+mf+" (read, compute and write in one critical section)", false, "read at "+p.InstrPos(in))
+									}
+								}
+							}
+							for _, r := range *fa.Referrers() {
+								if ld, ok := r.(*ssa.UnOp); ok && ld.Op == token.MUL && heldAt(ld) {
+									nRead10++
+									follow(ld, false, 0)
+								}
+							}
+						}
 						for v := range derived {
 							refs := v.Referrers()
 							if refs == nil {
@@ -340,6 +397,7 @@ func runLockRulesP(c *Ctx, prop string, fnPred func(*ssa.Function) bool, ownerPr
 				}
 			}
 			c.Count("guarded scalar reads followed for "+owner, nRead)
+			c.Count("guarded reads followed to a write-back for "+owner, nRead10)
 		}
 		// R6 send/close discipline
 		checkChanDiscipline(c, prop, owner, mf)
